@@ -50,4 +50,13 @@ let handle (toks : string list) : string =
   | ["shortcut_count"; counter; cursor; limit] ->
       string_of_z (Z.of_N (shortcut_count (z_of_string counter)
          (Z.to_N (z_of_string cursor)) (Z.to_N (z_of_string limit))))
+  | "pdel_select" :: p :: ids ->
+      (* pdel_select <pattern> {id}   (ids in ascending order) -> <n> {deleted id} *)
+      list_reply (pdel_select (bytes_of_hex p) (Stdlib.List.map bytes_of_hex ids))
+  | ["transport_words"; line] ->
+      (* the argument vector readNativeMessageLine makes of a command line -> <n> {arg} | panic | fuel *)
+      (match transport_words (bytes_of_hex line) with
+       | TOk args -> list_reply args
+       | TPanic -> "panic"
+       | TFuel -> "fuel")
   | _ -> "?unknown"
